@@ -26,7 +26,11 @@ Inductive rop :=
 | ROpen (mem : bool) (url name : string) (mode : omode)
 | RClose (h : N)
 | RCloseAndDelete (h : N)
-| RWrite (h : N) (k v : string).
+| RWrite (h : N) (k v : string)
+| RCloseOpen (h : N) (mem : bool) (url name : string) (mode : omode).
+   (* an OpenBucket that runs while Close(h) is between its unregisterBucket and the marking of the handle:
+      unregistering is one atomic step under the registry lock, so the pair reads as Close, then Open;
+      the response is the open's *)
 
 Inductive rerr := REExist | RENotExist | REOtherUrl | REClosed | REDbClosed | RENoHandle.
 Inductive rresp := RROk | RROpened (h : N) | RRErr (e : rerr).
@@ -179,6 +183,7 @@ Definition rstep (s : rstate) (o : rop) : rstate * rresp :=
   | RClose h => do_close s h
   | RCloseAndDelete h => do_close_and_delete s h
   | RWrite h k v => do_write s h k v
+  | RCloseOpen h mem url name mode => do_open (fst (do_close s h)) mem url name mode
   end.
 
 (* ------------------------------------------------------------------------------------------ *)
